@@ -19,6 +19,23 @@ func init() {
 }
 
 func isBufLen(v ssa.Value) (ssa.Value, bool) {
+	v = stripChange(v)
+	// a loop variable that holds buffer.Len() (for n := buf.Len(); n > 0; n = buf.Len()): every way in is Len() of one buffer
+	if ph, ok := v.(*ssa.Phi); ok {
+		var buf ssa.Value
+		for _, e := range ph.Edges {
+			b, ok := isBufLenCall(e)
+			if !ok || (buf != nil && b != buf) {
+				return nil, false
+			}
+			buf = b
+		}
+		return buf, buf != nil
+	}
+	return isBufLenCall(v)
+}
+
+func isBufLenCall(v ssa.Value) (ssa.Value, bool) {
 	c, ok := stripChange(v).(*ssa.Call)
 	if !ok || calleeName(&c.Call) != "(*bytes.Buffer).Len" {
 		return nil, false
@@ -147,6 +164,10 @@ func runC03(p *Prog, r *Report, tier string) {
 				snapOK := false
 				for _, s := range []ssa.Value{a, b} {
 					if sc, ok := s.(*ssa.Call); ok && sc.Block() == body && noConsumptionBefore(sc, buf) {
+						snapOK = true
+					}
+					// the loop variable itself: its value at the loop head is the length before this iteration
+					if ph, ok := s.(*ssa.Phi); ok && ph.Block() == hb {
 						snapOK = true
 					}
 				}
